@@ -37,6 +37,11 @@ def scenario (oldn : Option Nat) (fault : String) : Option Scenario :=
     match k.toNat? with
     | some k => some ⟨base, { noFault with write := limitPolicy k true }, old⟩
     | none => none
+  | ["stale", k] =>
+    -- a regular file of k bytes left at the temp name by an earlier, killed save
+    match k.toNat? with
+    | some k => some ⟨(tmpOf destP, .file (List.replicate k 0xEE)) :: base, noFault, old⟩
+    | none => none
   | _ => none
 
 def handlePath (kind : String) (size : Nat) (oldn : Option Nat) (fault : String) : String :=
